@@ -146,19 +146,19 @@ func queryKeys(b *bundle.Bundle) []string {
 }
 
 type cStep struct {
-	kind  string // verify validate attenuate discharge filter header tick
-	i     int
-	mode  string
-	accs  []macaroon.Access
-	cavs  []macaroon.Caveat
-	tp    tpParty
-	ka    []byte
-	cb    bCb
-	f     bFilter
-	sx    string // the op without the discharge randomness
-	seed  uint64
-	nrnd  int
-	rnds  []string
+	kind string // verify validate attenuate discharge filter header tick
+	i    int
+	mode string
+	accs []macaroon.Access
+	cavs []macaroon.Caveat
+	tp   tpParty
+	ka   []byte
+	cb   bCb
+	f    bFilter
+	sx   string // the op without the discharge randomness
+	seed uint64
+	nrnd int
+	rnds []string
 }
 
 // related headers around one token family
@@ -410,8 +410,8 @@ func (w *bWorld) cacheEpisode(hookable bool, probe bool) {
 	}
 	inner := &logVerifier{kr: w.resolver(), ok: map[string]bool{}}
 	vc := bundle.NewVerificationCache(inner, ttl, size)
-	mirror := map[string]bool{}        // keys the model's store holds
-	successAt := map[string]int{}      // key -> step of the last accepted inner call (or insertion)
+	mirror := map[string]bool{}   // keys the model's store holds
+	successAt := map[string]int{} // key -> step of the last accepted inner call (or insertion)
 	var justify []string
 
 	// one step on one world; returns the output token
